@@ -20,7 +20,9 @@ package chain
 // the sponsor's maximum bond as stored in chain state (absent or empty = 0)
 //@ func newStateKey
 //@   pure
-//@ spec func maxRaw(mu state.Mutable, tx *chain.Transaction) bytes = str(fst(state.Immutable.GetValue(mu, newStateKey(chain.Transaction.GetSponsor(tx)[:]))))
+// (chain state is read through state.Mutable's map contract: gmap("vis", mu) is its visible content)
+//@ spec func maxKey(tx *chain.Transaction) bytes = str(newStateKey(chain.Transaction.GetSponsor(tx)[:]))
+//@ spec func maxRaw(mu state.Mutable, tx *chain.Transaction) bytes = ite(has(gmap("vis", mu), maxKey(tx)), gmap("vis", mu)[maxKey(tx)], "")
 //@ spec func maxBond(mu state.Mutable, tx *chain.Transaction) int = ite(len(maxRaw(mu, tx)) > 0, be64(maxRaw(mu, tx), 0), 0)
 
 //@ func Bonder.Bond props C38
